@@ -12,12 +12,13 @@ func init() {
 		ID:         "C44",
 		Level:      "other",
 		Technique:  "exhaustive finite case analysis of the path comparator over all 256×256 byte pairs (with uint8 wrap-around), shape rules tying Normalize's sort and prefix elision to it (static)",
-		Explain:    "Decides structural necessary conditions of `Normalize returns a sorted, prefix-free list covering the same paths` (and of Intersect, which merges two normalized lists with the same predicates): (1) lessPath decides on the first differing byte by `(x[i]-K) < (y[i]-K)` in uint8 arithmetic; evaluated for all 65280 pairs of distinct bytes this is a strict total order (exactly one direction holds) in which the path separator K = '.' is the minimum, and a proper prefix sorts before its extensions (`len(x) < len(y)` on a common prefix). With '.' minimal every extension `p.q` of a path p sorts after p and before any other string starting with p, which is what makes comparing only with the last kept path sufficient; (2) normalizePaths sorts with lessPath and elides a path exactly when hasPathPrefix(path, last kept path); (3) hasPathPrefix is `HasPrefix && (equal length || next byte is the same separator)`, so `ab` is not taken for a sub-path of `a`.",
+		Explain:    "Decides structural necessary conditions of `Normalize returns a sorted, prefix-free list covering the same paths` (and of Intersect, which merges two normalized lists with the same predicates): (1) lessPath decides on the first differing byte by `(x[i]-K) < (y[i]-K)` in uint8 arithmetic; evaluated for all 65280 pairs of distinct bytes this is a strict total order (exactly one direction holds) in which the path separator K = '.' is the minimum, and a proper prefix sorts before its extensions (`len(x) < len(y)` on a common prefix). With '.' minimal every extension `p.q` of a path p sorts after p and before any other string starting with p, which is what makes comparing only with the last kept path sufficient; (2) normalizePaths sorts with lessPath and elides a path exactly when hasPathPrefix(path, last kept path); (3) hasPathPrefix is `HasPrefix && (equal length || next byte is the same separator)`, so `ab` is not taken for a sub-path of `a`; (4) path validation (New/Append/IsValid) applies the rule that a group is named by its message name only to group-like fields, so every DELIMITED message field stays reachable.",
 		NotCovered: "idempotence and coverage equality on concrete path lists; Union/Intersect results on values; New/Append/IsValid against message descriptors.",
 		Quick:      all("./types/known/fieldmaskpb"),
 		Thorough:   all("./..."),
 		Run: func(c *Ctx) {
 			c.rulePathOrder("R-PATH-ORDER")
+			c.ruleFieldMaskGroupName("R-FIELDMASK-GROUP-NAME")
 		},
 	})
 }
@@ -184,4 +185,63 @@ func containsCallAll(info *types.Info, n ast.Node, key string) bool {
 		return true
 	})
 	return found
+}
+
+// R-FIELDMASK-GROUP-NAME: in a field mask path a proto2 group is named by its
+// message name, because that is what the text format calls it. An editions
+// message field with DELIMITED encoding also has GroupKind but is group-like
+// only if its name is the lower-cased message name; otherwise it is an
+// ordinary field and must be accepted under its own name. The rejection of a
+// GroupKind field found by its own name therefore has to be restricted to
+// group-like fields.
+func (c *Ctx) ruleFieldMaskGroupName(rule string) {
+	R, P := c.R, c.P
+	R.Rule(rule, "fieldmaskpb.numValidPaths rejects a field of GroupKind that was found by its own name only if the field is group-like (its name equals the lower-cased message name); other DELIMITED fields are reachable under their own name", 1)
+	fi := c.need(rule, "types/known/fieldmaskpb.numValidPaths")
+	if fi == nil {
+		return
+	}
+	n := 0
+	walkAll(fi.Decl.Body, func(x ast.Node) bool {
+		is, ok := x.(*ast.IfStmt)
+		if !ok {
+			return true
+		}
+		check := func(s *ast.IfStmt) {
+			cs := exprStr(s.Cond)
+			if !strings.Contains(cs, "GroupKind") || !strings.Contains(cs, "!=") {
+				return
+			}
+			clears := false
+			for _, st := range s.Body.List {
+				if as, ok := st.(*ast.AssignStmt); ok && len(as.Rhs) == 1 && exprStr(as.Rhs[0]) == "nil" {
+					clears = true
+				}
+			}
+			if !clears {
+				return
+			}
+			n++
+			groupLike := strings.Contains(cs, "ToLower(") && strings.Contains(cs, ".Name()") && strings.Contains(cs, "Message().Name()")
+			nameSide := false
+			walk(s.Cond, func(y ast.Node) bool {
+				if be, ok := y.(*ast.BinaryExpr); ok && be.Op == token.EQL {
+					l, r := exprStr(be.X), exprStr(be.Y)
+					if (strings.Contains(l, "ToLower(") && strings.HasSuffix(strings.TrimSuffix(r, ")"), ".Name()")) || (strings.Contains(r, "ToLower(") && strings.HasSuffix(strings.TrimSuffix(l, ")"), ".Name()")) {
+						nameSide = true
+					}
+				}
+				return true
+			})
+			R.Check(groupLike && nameSide, rule, fi.Key+" group rejection#"+itoa(n), P.Pos(s), "restricted to group-like fields", "a field of GroupKind found by its own name is rejected whenever the name differs from the message name, without testing that the field is group-like: an editions message field with DELIMITED encoding whose name is not the lower-cased message name cannot be named by any path (IsValid/New/Append reject it and everything below it)")
+		}
+		check(is)
+		if e, ok := is.Else.(*ast.IfStmt); ok {
+			_ = e // visited by walkAll
+		}
+		return true
+	})
+	if n == 0 {
+		R.Unk(rule, fi.Key, P.Pos(fi.Decl), "rejection of a GroupKind field found by its own name not found")
+	}
 }
